@@ -2392,8 +2392,10 @@ def thin_wrappers(prog: Program) -> Dict[str, Tuple[FuncInfo, FuncInfo, Optional
 
 def _as_wrapper_call(prog: Program, fi: FuncInfo, e: Event) -> Optional[Term]:
     """The call of the pinned tree's function that a call of the new function it merely wraps stands for."""
+    if not (isinstance(e.term, tuple) and len(e.term) == 4 and e.term[0] == "call" and isinstance(e.term[1], tuple)):
+        return None        # (the call's term was replaced by the value of an identical earlier call)
     f = e.term[1]
-    nm = f[2] if f[0] == "attr" else f[1].rsplit(".", 1)[-1] if f[0] == "glob" else None
+    nm = f[2] if (f[0] == "attr" and len(f) > 2) else f[1].rsplit(".", 1)[-1] if (f[0] == "glob" and isinstance(f[1], str)) else None
     tw = thin_wrappers(prog).get(nm) if nm is not None else None
     if tw is None:
         return None
